@@ -80,6 +80,8 @@ impl StatementBatch {
                 let on = TimeoutLimit::parse(&t.on)?;
                 if millis >= on.as_secs() * 1000 {
                     task.set_data_with(|data| data.set(&key, true));
+                    // a tick is not a task event: store the mark, or a reloaded task fires again
+                    ctx.runtime.cache().upsert(&task)?;
                     for node in &task
                         .node()
                         .children_in(NodeOutputKind::Timeout, Some(t.on.clone()))
